@@ -101,7 +101,9 @@ impl PrimaryWriter {
     }
 
     pub fn shutdown(&self) {
-        self.flush().ok();
+        self.flush().unwrap_or_else(|e| {
+            crate::util::eprint_err(crate::util::ErrorCode::Flush, "flushing failed", &e);
+        });
         match self {
             Self::Std(writer) => {
                 writer.shutdown();
